@@ -2,6 +2,7 @@ package props
 
 import (
 	"fmt"
+	"strings"
 
 	"github.com/crillab/gophersat/solver"
 
@@ -103,6 +104,10 @@ func c06Run(ci interface{}, rec *Rec) {
 	chk := ref.NewRUP(c.CNF, n)
 	emptySeen := false
 	for i, l := range lines {
+		if f := strings.Fields(l); len(f) == 0 || !isIntToken(f[0]) {
+			rec.Count("non_clause_lines_ignored", 1) // comment-like lines are ignored, as certificate checkers do
+			continue
+		}
 		cl, ok := parseCertLine(l)
 		if !ok {
 			rec.Viol(scen, "not-rup", "malformed-line", "certificate line #%d %q is not a clause line", i, l)
@@ -215,4 +220,16 @@ func init() {
 			"thorough": {"cert_lines": 5000000, "unsat_answers": 75000, "sat_answers": 75000},
 		},
 	})
+}
+
+func isIntToken(t string) bool {
+	if t == "" {
+		return false
+	}
+	for i, c := range t {
+		if !(c >= '0' && c <= '9') && !(i == 0 && (c == '-' || c == '+') && len(t) > 1) {
+			return false
+		}
+	}
+	return true
 }
